@@ -449,11 +449,11 @@ package rux
 //@   ensures r == uf("lastindex", int, s, substr) && -1 <= r && r <= len(s) - len(substr)
 //@ extern strings.ToUpper(s) (r)
 //@   pure
-//@   ensures r == uf("upper", string, s) && len(r) == len(s)
+//@   ensures r == uf("upper", string, s)
 //@   ensures isMethod(s) ==> r == s
 //@ extern strings.ToLower(s) (r)
 //@   pure
-//@   ensures r == uf("lower", string, s) && len(r) == len(s)
+//@   ensures r == uf("lower", string, s)
 //@   ensures (s == "Index" ==> r == "index") && (s == "Create" ==> r == "create") && (s == "Store" ==> r == "store") && (s == "Show" ==> r == "show")
 //@       && (s == "Edit" ==> r == "edit") && (s == "Update" ==> r == "update") && (s == "Delete" ==> r == "delete")
 
@@ -489,7 +489,7 @@ package rux
 //@     || m == "HEAD" || m == "CONNECT" || m == "TRACE"
 //@ spec methodsTable() bool = len(anyMethods) == 9 && anyMethods[0] == "GET" && anyMethods[1] == "POST" && anyMethods[2] == "PUT"
 //@     && anyMethods[3] == "PATCH" && anyMethods[4] == "DELETE" && anyMethods[5] == "OPTIONS" && anyMethods[6] == "HEAD"
-//@     && anyMethods[7] == "CONNECT" && anyMethods[8] == "TRACE" && (forall j int :: 0 <= j && j < 9 ==> isMethod(anyMethods[j]))
+//@     && anyMethods[7] == "CONNECT" && anyMethods[8] == "TRACE" && (forall j int :: 0 <= j && j < 9 ==> isMethod(anyMethods[j])) && allocated(arr(anyMethods))
 //
 //@ func (*Route).goodInfo [C13]
 //@   requires methodsTable()
@@ -969,6 +969,7 @@ package rux
 //@ extern (*regexp.Regexp).FindAllString(re, s, n) (ss)
 //@   requires re != nil
 //@ extern strings.SplitN(s, sep, n) (parts)
+//@   requires len(sep) > 0
 //@   ensures len(parts) >= 1 && len(parts) <= max(n, 1)
 //@ extern strings.NewReplacer(oldnew) (rp)
 //@   panics *
@@ -1122,8 +1123,11 @@ package rux
 //@   ensures[C14] cache_created_with_capacity: r.enableCaching && old(r.cachedRoutes) == nil ==> r.cachedRoutes != nil && r.cachedRoutes.size == r.maxNumCaches
 //@   ensures[C14] existing_cache_kept: old(r.cachedRoutes) != nil ==> r.cachedRoutes == old(r.cachedRoutes)
 //
-//@ func NewRoute [C11, C13]
+//@ func NewRoute [C11, C13, C04]
 //@   ensures fresh_route: result != nil && fresh(result) && result.path == sfp(path) && result.handler == handler && len(result.handlers) == 0 && result.name == ""
+//@   ensures nothing_else_set: arr(result.matches) == nil && arr(result.handlers) == nil
+//@   ensures methods_kept_in_order: len(methods) > 0 && allMethods(methods) ==> len(result.methods) == len(methods)
+//@       && (forall j int :: 0 <= j && j < len(methods) ==> result.methods[j] == methods[j])
 //@ func NewNamedRoute [C11, C15, C16]
 //@   ensures fresh_route: result != nil && fresh(result) && result.path == sfp(path) && result.handler == handler && len(result.handlers) == 0
 //@       && result.name == uf("trimspace", string, name)
@@ -1483,3 +1487,127 @@ package rux
 //@   invariant forall e int :: old(regCount(r)) <= e && e < regCount(r) ==> entryOK(r, cv, resName, cast(regAt(r, e), *Route))
 //@       && iterord(actOf(resName, cast(regAt(r, e), *Route).name)) < iterpos
 //@   invariant forall e int :: e < old(regCount(r)) ==> regAt(r, e) == old(regAt(r, e))
+
+// ---------------------------------------------------------------------------
+// Registration helpers (C04, C13): Add, the verb helpers and Any create one route, log it, and give it the
+// chain "group middleware in effect, then the route's own middleware" (C04) for exactly the given method(s).
+//@ spec chainIs(r *Router, rt *Route, own []HandlerFunc) bool = len(rt.handlers) == len(r.currentGroupHandlers) + len(own)
+//@     && (forall i int :: 0 <= i && i < len(r.currentGroupHandlers) ==> rt.handlers[i] == r.currentGroupHandlers[i])
+//@     && (forall i int :: 0 <= i && i < len(own) ==> rt.handlers[len(r.currentGroupHandlers) + i] == own[i])
+//@ func (*Router).Add [C04, C13]
+//@   requires wf: tablesWF(r)
+//@   requires sep: tablesSep(r)
+//@   requires nocache: noCacheEntries(r)
+//@   requires mt: methodsTable() && varRegex != nil
+//@   panics *
+//@   modifies allelems([]*Route), r.counter, entries(r.namedRoutes), entries(r.stableRoutes), entries(r.regularRoutes), entries(r.irregularRoutes), isReg(_), firstSeg(_)
+//@   modifies r.cachedRoutes, lmem(_, _), lclock(_), ln(_), guard(_), regCount(r), regAt(r, _)
+//@   ensures wf: tablesWF(r) && tablesSep(r) && noCacheEntries(r) && result != nil && fresh(result)
+//@   ensures logged: regCount(r) == old(regCount(r)) + 1 && regAt(r, old(regCount(r))) == result
+//@   ensures the_route: result.handler == handler && result.path == fullPath(r, sfp(path)) && result.name == ""
+//@   ensures methods_kept_in_order: len(methods) > 0 && allMethods(methods) ==> len(result.methods) == len(methods)
+//@       && (forall j int :: 0 <= j && j < len(methods) ==> result.methods[j] == methods[j])
+//@   ensures only_group_middleware: len(result.handlers) == len(r.currentGroupHandlers)
+//@       && (forall i int :: 0 <= i && i < len(r.currentGroupHandlers) ==> result.handlers[i] == r.currentGroupHandlers[i])
+//@       && (arr(result.handlers) == nil || fresh(arr(result.handlers)))
+//@ func (*Router).GET [C04, C13]
+//@   requires tablesWF(r) && tablesSep(r) && noCacheEntries(r) && methodsTable() && varRegex != nil
+//@   panics *
+//@   modifies allelems([]*Route), allelems([]HandlerFunc), r.counter, entries(r.namedRoutes), entries(r.stableRoutes), entries(r.regularRoutes), entries(r.irregularRoutes), isReg(_), firstSeg(_)
+//@   modifies r.cachedRoutes, lmem(_, _), lclock(_), ln(_), guard(_), regCount(r), regAt(r, _)
+//@   ensures wf: tablesWF(r) && tablesSep(r) && noCacheEntries(r) && result != nil && fresh(result)
+//@   ensures logged: regCount(r) == old(regCount(r)) + 1 && regAt(r, old(regCount(r))) == result
+//@   ensures the_route: result.handler == handler && result.path == fullPath(r, sfp(path))
+//@   ensures one_method: len(result.methods) == 1 && result.methods[0] == "GET"
+//@   ensures[C04] group_then_own_middleware: chainIs(r, result, middleware)
+//@ func (*Router).HEAD [C04, C13]
+//@   requires tablesWF(r) && tablesSep(r) && noCacheEntries(r) && methodsTable() && varRegex != nil
+//@   panics *
+//@   modifies allelems([]*Route), allelems([]HandlerFunc), r.counter, entries(r.namedRoutes), entries(r.stableRoutes), entries(r.regularRoutes), entries(r.irregularRoutes), isReg(_), firstSeg(_)
+//@   modifies r.cachedRoutes, lmem(_, _), lclock(_), ln(_), guard(_), regCount(r), regAt(r, _)
+//@   ensures wf: tablesWF(r) && tablesSep(r) && noCacheEntries(r) && result != nil && fresh(result)
+//@   ensures logged: regCount(r) == old(regCount(r)) + 1 && regAt(r, old(regCount(r))) == result
+//@   ensures the_route: result.handler == handler && result.path == fullPath(r, sfp(path))
+//@   ensures one_method: len(result.methods) == 1 && result.methods[0] == "HEAD"
+//@   ensures[C04] group_then_own_middleware: chainIs(r, result, middleware)
+//@ func (*Router).POST [C04, C13]
+//@   requires tablesWF(r) && tablesSep(r) && noCacheEntries(r) && methodsTable() && varRegex != nil
+//@   panics *
+//@   modifies allelems([]*Route), allelems([]HandlerFunc), r.counter, entries(r.namedRoutes), entries(r.stableRoutes), entries(r.regularRoutes), entries(r.irregularRoutes), isReg(_), firstSeg(_)
+//@   modifies r.cachedRoutes, lmem(_, _), lclock(_), ln(_), guard(_), regCount(r), regAt(r, _)
+//@   ensures wf: tablesWF(r) && tablesSep(r) && noCacheEntries(r) && result != nil && fresh(result)
+//@   ensures logged: regCount(r) == old(regCount(r)) + 1 && regAt(r, old(regCount(r))) == result
+//@   ensures the_route: result.handler == handler && result.path == fullPath(r, sfp(path))
+//@   ensures one_method: len(result.methods) == 1 && result.methods[0] == "POST"
+//@   ensures[C04] group_then_own_middleware: chainIs(r, result, middleware)
+//@ func (*Router).PUT [C04, C13]
+//@   requires tablesWF(r) && tablesSep(r) && noCacheEntries(r) && methodsTable() && varRegex != nil
+//@   panics *
+//@   modifies allelems([]*Route), allelems([]HandlerFunc), r.counter, entries(r.namedRoutes), entries(r.stableRoutes), entries(r.regularRoutes), entries(r.irregularRoutes), isReg(_), firstSeg(_)
+//@   modifies r.cachedRoutes, lmem(_, _), lclock(_), ln(_), guard(_), regCount(r), regAt(r, _)
+//@   ensures wf: tablesWF(r) && tablesSep(r) && noCacheEntries(r) && result != nil && fresh(result)
+//@   ensures logged: regCount(r) == old(regCount(r)) + 1 && regAt(r, old(regCount(r))) == result
+//@   ensures the_route: result.handler == handler && result.path == fullPath(r, sfp(path))
+//@   ensures one_method: len(result.methods) == 1 && result.methods[0] == "PUT"
+//@   ensures[C04] group_then_own_middleware: chainIs(r, result, middleware)
+//@ func (*Router).PATCH [C04, C13]
+//@   requires tablesWF(r) && tablesSep(r) && noCacheEntries(r) && methodsTable() && varRegex != nil
+//@   panics *
+//@   modifies allelems([]*Route), allelems([]HandlerFunc), r.counter, entries(r.namedRoutes), entries(r.stableRoutes), entries(r.regularRoutes), entries(r.irregularRoutes), isReg(_), firstSeg(_)
+//@   modifies r.cachedRoutes, lmem(_, _), lclock(_), ln(_), guard(_), regCount(r), regAt(r, _)
+//@   ensures wf: tablesWF(r) && tablesSep(r) && noCacheEntries(r) && result != nil && fresh(result)
+//@   ensures logged: regCount(r) == old(regCount(r)) + 1 && regAt(r, old(regCount(r))) == result
+//@   ensures the_route: result.handler == handler && result.path == fullPath(r, sfp(path))
+//@   ensures one_method: len(result.methods) == 1 && result.methods[0] == "PATCH"
+//@   ensures[C04] group_then_own_middleware: chainIs(r, result, middleware)
+//@ func (*Router).TRACE [C04, C13]
+//@   requires tablesWF(r) && tablesSep(r) && noCacheEntries(r) && methodsTable() && varRegex != nil
+//@   panics *
+//@   modifies allelems([]*Route), allelems([]HandlerFunc), r.counter, entries(r.namedRoutes), entries(r.stableRoutes), entries(r.regularRoutes), entries(r.irregularRoutes), isReg(_), firstSeg(_)
+//@   modifies r.cachedRoutes, lmem(_, _), lclock(_), ln(_), guard(_), regCount(r), regAt(r, _)
+//@   ensures wf: tablesWF(r) && tablesSep(r) && noCacheEntries(r) && result != nil && fresh(result)
+//@   ensures logged: regCount(r) == old(regCount(r)) + 1 && regAt(r, old(regCount(r))) == result
+//@   ensures the_route: result.handler == handler && result.path == fullPath(r, sfp(path))
+//@   ensures one_method: len(result.methods) == 1 && result.methods[0] == "TRACE"
+//@   ensures[C04] group_then_own_middleware: chainIs(r, result, middleware)
+//@ func (*Router).OPTIONS [C04, C13]
+//@   requires tablesWF(r) && tablesSep(r) && noCacheEntries(r) && methodsTable() && varRegex != nil
+//@   panics *
+//@   modifies allelems([]*Route), allelems([]HandlerFunc), r.counter, entries(r.namedRoutes), entries(r.stableRoutes), entries(r.regularRoutes), entries(r.irregularRoutes), isReg(_), firstSeg(_)
+//@   modifies r.cachedRoutes, lmem(_, _), lclock(_), ln(_), guard(_), regCount(r), regAt(r, _)
+//@   ensures wf: tablesWF(r) && tablesSep(r) && noCacheEntries(r) && result != nil && fresh(result)
+//@   ensures logged: regCount(r) == old(regCount(r)) + 1 && regAt(r, old(regCount(r))) == result
+//@   ensures the_route: result.handler == handler && result.path == fullPath(r, sfp(path))
+//@   ensures one_method: len(result.methods) == 1 && result.methods[0] == "OPTIONS"
+//@   ensures[C04] group_then_own_middleware: chainIs(r, result, middleware)
+//@ func (*Router).DELETE [C04, C13]
+//@   requires tablesWF(r) && tablesSep(r) && noCacheEntries(r) && methodsTable() && varRegex != nil
+//@   panics *
+//@   modifies allelems([]*Route), allelems([]HandlerFunc), r.counter, entries(r.namedRoutes), entries(r.stableRoutes), entries(r.regularRoutes), entries(r.irregularRoutes), isReg(_), firstSeg(_)
+//@   modifies r.cachedRoutes, lmem(_, _), lclock(_), ln(_), guard(_), regCount(r), regAt(r, _)
+//@   ensures wf: tablesWF(r) && tablesSep(r) && noCacheEntries(r) && result != nil && fresh(result)
+//@   ensures logged: regCount(r) == old(regCount(r)) + 1 && regAt(r, old(regCount(r))) == result
+//@   ensures the_route: result.handler == handler && result.path == fullPath(r, sfp(path))
+//@   ensures one_method: len(result.methods) == 1 && result.methods[0] == "DELETE"
+//@   ensures[C04] group_then_own_middleware: chainIs(r, result, middleware)
+//@ func (*Router).CONNECT [C04, C13]
+//@   requires tablesWF(r) && tablesSep(r) && noCacheEntries(r) && methodsTable() && varRegex != nil
+//@   panics *
+//@   modifies allelems([]*Route), allelems([]HandlerFunc), r.counter, entries(r.namedRoutes), entries(r.stableRoutes), entries(r.regularRoutes), entries(r.irregularRoutes), isReg(_), firstSeg(_)
+//@   modifies r.cachedRoutes, lmem(_, _), lclock(_), ln(_), guard(_), regCount(r), regAt(r, _)
+//@   ensures wf: tablesWF(r) && tablesSep(r) && noCacheEntries(r) && result != nil && fresh(result)
+//@   ensures logged: regCount(r) == old(regCount(r)) + 1 && regAt(r, old(regCount(r))) == result
+//@   ensures the_route: result.handler == handler && result.path == fullPath(r, sfp(path))
+//@   ensures one_method: len(result.methods) == 1 && result.methods[0] == "CONNECT"
+//@   ensures[C04] group_then_own_middleware: chainIs(r, result, middleware)
+//@ func (*Router).Any [C04, C13, C06]
+//@   requires tablesWF(r) && tablesSep(r) && noCacheEntries(r) && methodsTable() && varRegex != nil
+//@   panics *
+//@   modifies allelems([]*Route), allelems([]HandlerFunc), r.counter, entries(r.namedRoutes), entries(r.stableRoutes), entries(r.regularRoutes), entries(r.irregularRoutes), isReg(_), firstSeg(_)
+//@   modifies r.cachedRoutes, lmem(_, _), lclock(_), ln(_), guard(_), regCount(r), regAt(r, _)
+//@   ensures wf: tablesWF(r) && tablesSep(r) && noCacheEntries(r)
+//@   ensures logged: regCount(r) == old(regCount(r)) + 1 && fresh(regAt(r, old(regCount(r))))
+//@   ensures the_route: cast(regAt(r, old(regCount(r))), *Route).handler == handler && cast(regAt(r, old(regCount(r))), *Route).path == fullPath(r, sfp(path))
+//@   ensures[C06] every_method: len(cast(regAt(r, old(regCount(r))), *Route).methods) == 9
+//@       && (forall j int :: 0 <= j && j < 9 ==> cast(regAt(r, old(regCount(r))), *Route).methods[j] == anyMethods[j])
+//@   ensures[C04] group_then_own_middleware: chainIs(r, cast(regAt(r, old(regCount(r))), *Route), middles)
